@@ -133,7 +133,7 @@ func closuresOf(c *Ctx, f *ssa.Function, idx int, depth int) []*ssa.Function {
 	for fn := range set {
 		out = append(out, fn)
 	}
-	sort.Slice(out, func(i, j int) bool { return out[i].Pos() < out[j].Pos() })
+	sort.Slice(out, func(i, j int) bool { return c.P.PosLess(out[i].Pos(), out[j].Pos()) })
 	return out
 }
 
@@ -144,8 +144,9 @@ type depInfo struct {
 }
 
 type depAn struct {
-	memo map[ssa.Value]*depInfo
-	busy map[ssa.Value]bool
+	memo  map[ssa.Value]*depInfo
+	busy  map[ssa.Value]bool
+	depth int
 }
 
 func newDepAn() *depAn { return &depAn{memo: map[ssa.Value]*depInfo{}, busy: map[ssa.Value]bool{}} }
@@ -210,8 +211,18 @@ func (d *depAn) deps(v ssa.Value) *depInfo {
 	case *ssa.ChangeType:
 		add(d.deps(x.X))
 	case *ssa.Extract:
+		if call, ok := x.Tuple.(*ssa.Call); ok {
+			if r := d.calleeResult(call, x.Index); r != nil {
+				add(r)
+				break
+			}
+		}
 		add(d.deps(x.Tuple))
 	case *ssa.Call:
+		if r := d.calleeResult(x, 0); r != nil && x.Call.Signature().Results().Len() == 1 {
+			add(r)
+			break
+		}
 		for _, a := range x.Call.Args {
 			add(d.deps(a))
 		}
@@ -241,6 +252,46 @@ func (d *depAn) deps(v ssa.Value) *depInfo {
 	}
 	d.busy[v] = false
 	d.memo[v] = out
+	return out
+}
+
+// calleeResult: what result idx of a static call to a repository helper depends on — the
+// spatial-reference fields the helper reads on the way to that result, and the dependencies of
+// the actual arguments standing for the parameters it uses.  nil when the callee has no body
+// here (library functions: every argument counts, handled by the caller).
+func (d *depAn) calleeResult(call *ssa.Call, idx int) *depInfo {
+	callee := call.Call.StaticCallee()
+	if callee == nil || len(callee.Blocks) == 0 || callee.Pkg == nil || !strings.HasPrefix(callee.Pkg.Pkg.Path(), modPath) || d.depth > 4 {
+		return nil
+	}
+	out := &depInfo{params: map[*ssa.Parameter]bool{}, fields: map[string]bool{}}
+	d.depth++
+	defer func() { d.depth-- }()
+	for _, b := range callee.Blocks {
+		for _, in := range b.Instrs {
+			r, ok := in.(*ssa.Return)
+			if !ok || idx >= len(r.Results) {
+				continue
+			}
+			inner := d.deps(r.Results[idx])
+			for f := range inner.fields {
+				out.fields[f] = true
+			}
+			for p := range inner.params {
+				for i, cp := range callee.Params {
+					if cp == p && i < len(call.Call.Args) {
+						a := d.deps(call.Call.Args[i])
+						for f := range a.fields {
+							out.fields[f] = true
+						}
+						for q := range a.params {
+							out.params[q] = true
+						}
+					}
+				}
+			}
+		}
+	}
 	return out
 }
 
@@ -360,10 +411,10 @@ func checkC08(c *Ctx) {
 	c08mirror(c)
 	c08conic(c)
 	c.Floor("C08.R5", 3)
-	c.Floor("C08.R1", 14)
-	c.Floor("C08.R2", 6)
-	c.Floor("C08.R3", 8)
-	c.Floor("C08.R4", 6)
+	c.Floor("C08.R1", 9)
+	c.Floor("C08.R2", 4)
+	c.Floor("C08.R3", 5)
+	c.Floor("C08.R4", 4)
 }
 
 func c08closure(c *Ctx, cl *ssa.Function, name, role string) {
